@@ -1,6 +1,7 @@
 package main
 
 import (
+	"encoding/json"
 	"bytes"
 	"encoding/hex"
 	"fmt"
@@ -192,6 +193,31 @@ func init() {
 		fmt.Sscan(a[4], &idx)
 		r := implExecIdx(mustU(a[0], 32), unE(a[1]), unE(a[2]), a[3], idx, mustU(a[5], 64), int(mustU(a[6], 8)))
 		return r
+	}
+	// IX.totaljson <flags> <unlock> <lock> <txdesc> <idx> <sats> <hex of library-JSON input>: the checked input is whatever
+	// the library's own JSON decoder returns for the text (C07: every transaction context the library can produce)
+	executors["IX.totaljson"] = func(a []string) string {
+		tx := parseDesc(a[3])
+		idx := int(mustU(a[4], 31))
+		in := &bt.Input{}
+		if err := json.Unmarshal(mustHex(a[6]), in); err != nil {
+			return "undecodable"
+		}
+		us, ls := bscript.NewFromBytes(unE(a[1])), bscript.NewFromBytes(unE(a[2]))
+		in.UnlockingScript = us
+		tx.Inputs[idx] = in
+		out := safe(func() string {
+			err := interpreter.NewEngine().Execute(interpreter.WithFlags(scriptflag.Flag(mustU(a[0], 32))),
+				interpreter.WithTx(tx, idx, &bt.Output{Satoshis: mustU(a[5], 64), LockingScript: ls}))
+			if err != nil {
+				return "err"
+			}
+			return "ok"
+		})
+		if strings.HasPrefix(out, "panic") {
+			return "PANIC " + out[6:]
+		}
+		return out
 	}
 	// IX.dbg <flags> <unlock> <lock>: the same program with no debugger, a recording and a scribbling one (C19)
 	executors["IX.dbg"] = func(a []string) string {
